@@ -62,7 +62,8 @@ Proof.
       intros s R H. cbn [handle_read]. destruct (a_src s) as [|[opc payload] rest].
       * eapply cinv_fields; [exact H|reflexivity..].
       * destruct (opc =? 9).
-        -- apply IH3. apply cinv_queue. eapply cinv_fields; [exact H|reflexivity..].
+        -- apply IH3. assert (H0 : cinv R (set_src s rest)) by (eapply cinv_fields; [exact H|reflexivity..]).
+           destruct (a_state _ =? 1); [apply cinv_queue; exact H0|exact H0].
         -- cbn. destruct (a_rd s); eapply cinv_fields; try exact H; reflexivity.
     + (* run_cont *)
       intros s R k H. cbn [run_cont].
@@ -72,7 +73,7 @@ Proof.
       destruct k as [|id]; [apply IH1; exact H1|].
       assert (H2 : cinv R (upd_log (add_fdone s (KApp id)) (id, 0, []))) by (eapply cinv_fields; [exact H1|reflexivity..]).
       cbn [a_next upd_log]. destruct (nlookup id _) as [[id2 payload]|]; [|exact H2].
-      apply IH3. apply cinv_queue. exact H2.
+      destruct (a_state _ =? 1); [apply IH3; apply cinv_queue; exact H2|eapply cinv_fields; [exact H2|reflexivity..]].
     + (* flush *)
       intros s R k H. cbn [flush]. pose proof H as [A B C D E F]. rewrite A. cbn [andb].
       destruct (a_flushing s) eqn:Ef.
@@ -124,10 +125,13 @@ Qed.
 
 Theorem wastep_inv s o : cinv [] s -> cinv [] (wastep s o).
 Proof.
-  intros H. destruct o as [rid|wid payload|opc payload|wid wid2 payload2|accept]; cbn [wastep].
+  intros H. destruct o as [rid|wid payload|opc payload|cid|wid wid2 payload2|accept]; cbn [wastep].
   - apply (proj2 (proj2 (fuel_mutual wa_fuel))). eapply cinv_fields; [exact H|reflexivity..].
-  - apply (proj2 (proj2 (fuel_mutual wa_fuel))). apply cinv_queue. exact H.
+  - destruct (a_state s =? 1); [|eapply cinv_fields; [exact H|reflexivity..]].
+    apply (proj2 (proj2 (fuel_mutual wa_fuel))). apply cinv_queue. exact H.
   - eapply cinv_fields; [exact H|reflexivity..].
+  - destruct (a_state s =? 1); [|eapply cinv_fields; [exact H|reflexivity..]].
+    apply (proj2 (proj2 (fuel_mutual wa_fuel))). apply cinv_queue. eapply cinv_fields; [exact H|reflexivity..].
   - eapply cinv_fields; [exact H|reflexivity..].
   - set (s1 := if a_rwait s && negb (match a_inq s with [] => true | _ => false end) then _ else s).
     assert (H1 : cinv [] s1).
